@@ -33,6 +33,14 @@ def without_objects(task: dict) -> dict:
     return t
 
 
+def with_undefined_fluent(task: dict) -> dict:
+    """the state gives no value to (g) (and to (f o2) when the program mentions it): the library reads such fluents as 0"""
+    t = dict(task)
+    t["undefined_fluents"] = ["(g)", "(f o2)"]
+    t["label"] = "[state without a value for (g), (f o2)] " + task["label"]
+    return t
+
+
 def with_state_route(task: dict, k: int) -> dict:
     t = dict(task)
     t["state_route"] = "trajectory" if k % 2 else "trajectory_without_problem"
@@ -111,6 +119,8 @@ def applicable_again_tasks(tier: str, seed: int, cap=None) -> List[dict]:
         for args in G.arg_tuples(params, const, limit=1 if tier == "quick" else 2):
             tasks.append(_mk(text, args, "applicable", "AGAIN " + text_pre, cap=cap, origin=origin, const=const,
                              after_other_state=True))
+            if "(g)" in text_pre and len(tasks) % 2 == 0:
+                tasks.append(with_undefined_fluent(tasks[-1]))
     return tasks
 
 
@@ -147,6 +157,8 @@ def apply_tasks(tier: str, seed: int, cap=None, orders=None) -> List[dict]:
                 elif len(tasks) % 13 == 0:
                     tasks.append(dict(tasks[-1], domain_text=G.domain_text([DECOY, ("act", params, pre, eff)], const=const),
                                       label="[after a decoy action] " + tasks[-1]["label"]))
+                elif len(tasks) % 17 == 0 and "(g)" in render(eff):
+                    tasks.append(with_undefined_fluent(tasks[-1]))
     return tasks
 
 
@@ -169,4 +181,6 @@ def reapply_tasks(tier: str, seed: int, cap=None) -> List[dict]:
         for args in G.arg_tuples(params, const, limit=1 if tier == "quick" else 2):
             tasks.append(_mk(text, args, "reapply", "TWICE " + text_eff, cap=cap, origin=origin, const=const, order=None,
                              max_paths=1500 if tier == "quick" else 4000, timeout_ms=4000 if tier == "quick" else 20000))
+            if "(g)" in text_eff and len(tasks) % 2 == 0:
+                tasks.append(with_undefined_fluent(tasks[-1]))
     return tasks
